@@ -22,10 +22,7 @@ ASSUMPTIONS = [
     "IEEE rounding for non-dyadic sizes is not modelled (theorems are about exact arithmetic)",
     "species tree binary; sizes positive; parameters non-negative, min_subtree_spacing > 0",
 ]
-OPEN = [
-    "C14_anchors: C14_anchors_partial (compute_branches never fails, transfer targets are anchors); "
-    "the look-ups of _layout_branches / _tikz_draw_branches are def C14_anchors_statement",
-]
+OPEN = []
 
 DYADICS = ["1/4", "1/2", "1", "3/2", "2", "3", "4", "5", "13/2", "8", "10", "12", "16", "25", "32", "64"]
 
